@@ -18,6 +18,10 @@ def main():
         jobs.append((cfg, "ctvictim", {"static": True}))
         if driver.CONFIGS[cfg]["env"].get("GOARCH") != "386":
             jobs.append((cfg, "conc", {"race": True}))
+    for cfg in ("K0", "K1", "K2"):
+        jobs.append((cfg, "apimon", {"race": True}))
+    for cfg in ("K1", "K2"):
+        jobs.append((cfg, "apimon", {"asan": True}))
     for cfg, cmd, kw in jobs:
         try:
             p = driver.build(cfg, cmd, **kw)
